@@ -141,6 +141,62 @@ def internalCost (checked inherit : Bool) (tab : List ((Nat × Nat) × List Nat)
     | none => "P"
   | _, _ => "?"
 
+/-! ## the lattice behind the path: row sizes, and the OOV word id / POS id a path node carries -/
+
+/-- the stages of `Total.tokenize` up to `fill_top_path` once more (same functions, same order), keeping the candidate
+list `build_lattice` inserted and the position `(row, index)` of the last path entry (`connect_eos`'s back-pointer) -/
+def latticeDetail (lv : EditM.LenV) (cfg : Total.Cfg) (orig : List Nat) :
+    Option (List Nat × List Oov.Node × List Total.Entry × (Nat × Nat)) :=
+  match EditM.startBuild orig with
+  | none => none
+  | some l0 =>
+    match Total.rewriteInput lv cfg.inputPlugins l0 with
+    | .ok l =>
+      match Wire.utf8Decode (EditM.textOf l) with
+      | none => none
+      | some chars =>
+        if chars.isEmpty then none else
+        match Oov.buildLattice cfg.providers cfg.lex (cfg.mkBuf chars) with
+        | .ok nodes =>
+          match Total.buildAll Total.addI32 Total.I32_MAX cfg.conn (nodes.map Total.toVit) (Total.reset chars.length) [] with
+          | .ok (rows, _) =>
+            match Total.connectEos Total.addI32 Total.I32_MAX cfg.conn rows chars.length with
+            | .ok (_, pe, pi) =>
+              match Total.topPath rows (chars.length + 1) (pe, pi) [] with
+              | .ok ents => some (chars, nodes, ents, (pe, pi))
+              | _ => none
+            | _ => none
+          | _ => none
+        | _ => none
+    | _ => none
+
+/-- number of candidates ending at boundary `e` = `ends_full[e].len()` after `build_lattice` (`Lattice::insert` pushes a
+node into the row of its end) -/
+def rowLen (nodes : List Oov.Node) (e : Nat) : Nat := (nodes.map Total.toVit).countP (fun x => x.e == e)
+
+/-- the longest row of the lattice over a text of `n` characters (the quantity `hrowsz` bounds by 65535) -/
+def maxRow (nodes : List Oov.Node) (n : Nat) : Nat := (List.range (n + 1)).foldl (fun m e => max m (rowLen nodes e)) 0
+
+/-- `ends_full[e][i]`: the `i`-th inserted candidate that ends at `e` -/
+def candAt (nodes : List Oov.Node) (e i : Nat) : Option Oov.Node := (nodes.filter (fun x => (Total.toVit x).e == e))[i]?
+
+/-- position `(row, index)` of every path entry: an entry's back-pointer is the position of its predecessor, the last
+entry's position is the back-pointer of EOS -/
+def pathPositions (ents : List Total.Entry) (last : Nat × Nat) : List (Nat × Nat) :=
+  (ents.drop 1).map (fun x => (x.pe, x.pi)) ++ [last]
+
+/-- what an OOV morpheme reports as `part_of_speech_id()`: the provider puts `WordId::oov(pos)` on the node,
+`resolve_best_path` synthesises `WordInfoData { pos_id: word_id.word() as u16, … }` -/
+def oovPosId (x : Oov.Node) : Nat := Oov.widWord (Oov.wordIdOov x.pos) % 65536
+
+/-- the OOV nodes of the best path with the POS id their morpheme reports: `<begin_c>:<end_c>:<pos_id>` (`?` = the
+back-pointer does not address a candidate: cannot happen, `C03.lattice_index_in_range`) -/
+def oovItems (nodes : List Oov.Node) (ents : List Total.Entry) (last : Nat × Nat) : List String :=
+  (ents.zip (pathPositions ents last)).filterMap (fun (ent, pos) =>
+    match candAt nodes pos.1 pos.2 with
+    | some x => if x.oov then some (toString ent.node.b ++ ":" ++ toString ent.node.e ++ ":" ++ toString (oovPosId x)) else none
+    | none => some "?")
+
 /-! ## the configuration the driver executes -/
 
 /-- `InputBuffer::build` over the class table `tab`; a character without class (impossible for a compiled table: C17)
@@ -223,7 +279,8 @@ def caseCfg (toks : List (List Char)) : Option (Option (Total.Cfg × List LexU))
 /-- `C03 pipe orig=<hex> mode=<A|B|C> cdef=<hex char.def> variant= bow= provs=… <provider tokens> lex=… lexu=… conn=nl:nr:cells
 pipe=<D|P|Y…> early= rwdef=<hex rewrite.def> pm= pr= yl= yr= yn= uni=<facts> split=<cur|d6fix> commit=<running|final>`
 profile=<debug|release> ucost=<max|parent>`
-answer: `ok n=<morphemes> <bc:ec:bb:eb/begin:end:begin_c:end_c:sb:se;…> cost=<get_internal_cost|P>` | `err:<kind>` | `PANIC` | `err:setup` -/
+answer: `ok n=<morphemes> <bc:ec:bb:eb/begin:end:begin_c:end_c:sb:se;…> cost=<get_internal_cost|P> rows=<longest row of the
+lattice> oov=<begin_c:end_c:part_of_speech_id of every OOV morpheme|->` | `err:<kind>` | `PANIC` | `err:setup` -/
 def handlePipe (toks : List (List Char)) : String :=
   match Wire.kv? toks "orig", caseCfg toks with
   | some o, some c =>
@@ -244,7 +301,12 @@ def handlePipe (toks : List (List Char)) : String :=
         "ok n=" ++ toString r.morphs.length ++ " " ++
           Wire.joinWith ";" (r.morphs.map (fun n => showRange n ++ "/" ++ Total.showAccess (Total.access orig r.tables n))) ++
           " cost=" ++ internalCost (Wire.kv? toks "profile" != some "release".toList) (Wire.kv? toks "ucost" == some "parent".toList)
-            tab (match best with | some (_, ents) => ents | none => []) r.morphs.length
+            tab (match best with | some (_, ents) => ents | none => []) r.morphs.length ++
+          (match latticeDetail lv cfg0 orig with
+           | some (chars, nodes, ents, last) =>
+             let items := oovItems nodes ents last
+             " rows=" ++ toString (maxRow nodes chars.length) ++ " oov=" ++ (if items.isEmpty then "-" else Wire.joinWith "," items)
+           | none => " rows=0 oov=-")
     | none, _ => "bad-op"
   | _, _ => "bad-op"
 
